@@ -2876,6 +2876,9 @@ def check_struct(tree):
             for x in n.body:
                 if isinstance(x, ast.Expr) and isinstance(x.value, ast.Constant):
                     continue
+                if isinstance(x, ast.AnnAssign) and isinstance(x.target, ast.Name) and x.target.id == "indexable" \
+                        and x.value is not None and x.simple == 1 and ast.unparse(x.annotation) == "bool":
+                    continue          # indexable: bool = True
                 if isinstance(x, ast.Assign) and len(x.targets) == 1 and isinstance(x.targets[0], ast.Name) \
                         and x.targets[0].id in ("__slots__", "indexable"):
                     if x.targets[0].id == "__slots__" and ast.unparse(x.value) != "()":
@@ -2891,8 +2894,8 @@ def check_struct(tree):
                         continue
                 return False
             for x in n.body:
-                if isinstance(x, ast.Assign) and len(x.targets) == 1 and isinstance(x.targets[0], ast.Name) \
-                        and x.targets[0].id == "indexable" and isinstance(x.value, ast.Constant) \
+                tg_ = x.targets[0] if isinstance(x, ast.Assign) and len(x.targets) == 1 else (x.target if isinstance(x, ast.AnnAssign) else None)
+                if isinstance(tg_, ast.Name) and tg_.id == "indexable" and isinstance(getattr(x, "value", None), ast.Constant) \
                         and isinstance(x.value.value, bool):
                     found[n.name] = (x.value.value, [b.id for b in n.bases if isinstance(b, ast.Name)])
     stores = [x for x in ast.walk(tree) if (isinstance(x, ast.Name) and x.id == "indexable" and isinstance(x.ctx, ast.Store))
